@@ -3,6 +3,8 @@
 
 package api
 
+import "massnet.org/mass/mining"
+
 // Accessors for the verification harness (/verif). Compiled only with -tags verif.
 var (
 	VerifGetIPAccessControlFunc   = getIPAccessControlFunc
@@ -13,3 +15,8 @@ var (
 	VerifConcurrentRequestHandler = concurrentRequestHandler
 	VerifMaxBytesHandler          = maxBytesHandler
 )
+
+// VerifNewSpacesServer builds a Server with only the members the capacity-configuration handlers use.
+func VerifNewSpacesServer(m mining.PoCMiner, w mining.PoCWallet, sk mining.SpaceKeeperV1) *Server {
+	return &Server{pocMiner: m, pocWallet: w, spaceKeeperV1: sk}
+}
